@@ -1,11 +1,13 @@
 use crate::{core::Report, Args};
 
+pub mod c04;
 pub mod c07;
 pub mod c11;
 pub mod util;
 
 pub fn dispatch(id: &str, args: &Args) -> Option<Report> {
     Some(match id {
+        "C04" => c04::run(args),
         "C07" => c07::run(args),
         "C11" => c11::run(args),
         _ => return None,
